@@ -747,13 +747,15 @@ class Note:
             else:
                 result += f".oabs({self.octave})"
 
-        if self.mode is not None and self.is_note:
+        if self.mode is not None and self.type not in ('r', 'l'):
             result += f".{self.mode}"
-        if self.accident is not None and self.is_note:
+        if self.accident is not None and self.type not in ('r', 'l'):
             result += f".{self.accident}"
         if self.is_note or self.type in ("x", "d"):
             amp_figure = self.amp_figure
-            if amp_figure != 'mf':
+            if amp_figure == 'n':
+                result += ".set_amp(0)"  # `.n` is the rhythmic suffix n (0 quarters)
+            elif amp_figure != 'mf':
                 result += f".{self.amp_figure}"
         if len(self.tags) > 0:
             result += f".add_tags({self.tags})"
